@@ -9,6 +9,7 @@ import (
 	"strings"
 
 	"github.com/couchbase/nitro"
+	"github.com/couchbase/nitro/skiplist"
 )
 
 // C08 / C06-collector: goroutines Open/Close/GC snapshots under the deterministic scheduler.
@@ -25,6 +26,7 @@ type snInput struct {
 	Choices []int    `json:"choices,omitempty"` // thread chosen at each step (replay)
 	Sticky  int      `json:"sticky"`
 	Seed    int64    `json:"seed"`
+	Fine    bool     `json:"fine,omitempty"` // also park inside the snapshot lists' own skiplist operations (oracle-only runs)
 }
 
 func snGen(r *rand.Rand) *snInput {
@@ -88,6 +90,14 @@ func snRun(in *snInput, sink *CaseSink, fixedModel bool) {
 	nt := len(in.Progs)
 	sch := NewSched(nt, nitro.VerifPtOpenTested, nitro.VerifPtCloseDec, nitro.VerifPtGCLoop, nitro.VerifPtGCEnd)
 	nitro.VerifYieldHook = sch.Hook
+	if in.Fine {
+		// the live and the retired snapshot lists are skiplists: park before their publish / mark CASes
+		sch = NewSched(nt, nitro.VerifPtOpenTested, nitro.VerifPtCloseDec, nitro.VerifPtGCLoop, nitro.VerifPtGCEnd,
+			skiplist.VerifPtInsPub, skiplist.VerifPtSdCas, skiplist.VerifPtFPH)
+		nitro.VerifYieldHook = sch.Hook
+		skiplist.VerifYieldHook = sch.Hook
+		defer func() { skiplist.VerifYieldHook = nil }()
+	}
 	results := make([][]string, nt)
 	held := make([]map[int]int, nt)
 	lateOpen := ""
@@ -316,6 +326,34 @@ func init() {
 			total += runs
 		}
 		sink.meta.Extra = map[string]interface{}{"programs": a.n, "schedules": total}
+		return sink.Flush()
+	}
+	commands["snap-fine"] = func(a runArgs) error {
+		sink := NewSink(a.out, "C06", "", a.seed)
+		sink.meta.Rule = "ORACLE ONLY: as snap with 3..6 snapshots and 3..4 goroutines closing them in random orders, additionally parking before the publish, mark and help-delete CASes inside the live and retired snapshot lists (skiplists); oracles: no late Open, after all handles are closed and one more snapshot is created and closed the collector has handed over every snapshot"
+		top := rand.New(rand.NewSource(a.seed))
+		for i := 0; i < a.n; i++ {
+			in := snGen(top)
+			in.Fine = true
+			// more snapshots, mostly closes
+			in.N = 3 + top.Intn(4)
+			nt := len(in.Progs)
+			in.Owners = nil
+			for s := 0; s < in.N; s++ {
+				in.Owners = append(in.Owners, top.Intn(nt))
+			}
+			for t := range in.Progs {
+				in.Progs[t] = nil
+			}
+			perm := top.Perm(in.N)
+			for _, s := range perm {
+				t := in.Owners[s]
+				in.Progs[t] = append(in.Progs[t], snOp{Op: "close", S: s + 1})
+			}
+			sink.Begin(in)
+			snRun(in, sink, true)
+		}
+		sink.cases = nil
 		return sink.Flush()
 	}
 	commands["snap"] = func(a runArgs) error {
